@@ -12,6 +12,17 @@ global size_of usize == 8;
 pub struct Error { pub e: u8 }
 pub type Result<T> = core::result::Result<T, Error>;
 pub struct NotifierT { pub id: Ghost<int> }
+impl NotifierT {
+    /// a waiter is answered; the ghost argument (supplied mechanically by a `sub`) is the result of the fetch task
+    #[verifier::external_body]
+    pub fn send(self, Ghost(expected): Ghost<Result<Option<u64>>>, r: Result<Option<u64>>) -> core::result::Result<(), ()>
+        requires r == expected, // @label every_waiter_is_answered_with_the_result_of_the_fetch
+    { unimplemented!() }
+}
+impl Error { pub fn clone(&self) -> (r: Error) ensures r == *self { Error { e: self.e } } }
+/// `notifiers.drain(..)`
+#[verifier::external_body]
+pub fn verif_drain(v: &mut Vec<NotifierT>) -> (r: Vec<NotifierT>) ensures r@ == old(v)@, final(v)@.len() == 0 { unimplemented!() }
 pub struct BuilderT { pub b: u8 }
 pub struct ReqFutT { pub from: Ghost<u8> }
 pub struct CtxT { pub c: u8 }
@@ -89,6 +100,23 @@ fn handle_target(target: FetchTarget, key: &mut KeyOnce, cache: &mut CacheLogT, 
         r is Ready,
         target matches FetchTarget::Entry { value, properties } ==> final(cache).inserts@ == old(cache).inserts@.push(Inserted::Entry(old(key).k.unwrap(), value, source)), // @label fetched_value_is_inserted_once_under_the_key_of_this_fetch
         target is Piece ==> final(cache).inserts@ == old(cache).inserts@.push(Inserted::Piece),
+//@end
+
+
+// ---- RawFetch::handle_notify: every waiter taken by this task is answered, with the task's result (the fetched entry,
+// `None`, or the error), and the task is done
+//@region foyer-memory/src/raw.rs :: impl~^impl<E, S, I, C> RawFetch<E, S, I, C>/fn handle_notify name=handle_notify whole=1 sub=@notifiers\.drain\(\.\.\)@verif_drain(notifiers)@ sub=@notifier\.send\(@notifier.send(Ghost(verif_res), @
+//@head
+fn handle_notify(res: Result<Option<u64>>, notifiers: &mut Vec<NotifierT>) -> (r: Try)
+    ensures
+        r is Ready,
+        final(notifiers)@.len() == 0, // @label no_waiter_is_left_unanswered
+//@prologue
+    let ghost verif_res = res;
+//@loop 1
+                    invariant verif_res == Ok::<Option<u64>, Error>(e),
+//@loop 2
+                    invariant verif_res == Err::<Option<u64>, Error>(e),
 //@end
 
 } // verus!
